@@ -431,6 +431,14 @@ def replay(cfg, inputs, label):
     idx = [order[k] for k in range(s0, e0)]
     want = dict(value=float((wv[idx] * y[idx]).sum() / wv[idx].sum()), impurity=mse(s0, e0), left=mse(s0, p0), right=mse(p0, e0))
     got = dict(value=float(obs["value"]), impurity=float(obs["impurity"]), left=float(obs["children"][0]), right=float(obs["children"][1]))
+    if kind != "linear":
+        # improvement = N_t/N * (parent - N_R/N_t*right - N_L/N_t*left), N = total WEIGHT; proxy = -(N_R*right + N_L*left)
+        Wn, Wl, Wr = float(wv[idx].sum()), float(wv[[order[k] for k in range(s0, p0)]].sum()), float(wv[[order[k] for k in range(p0, e0)]].sum())
+        want["improvement"] = (Wn * want["impurity"] - Wr * want["right"] - Wl * want["left"]) / float(wv.sum())
+        got["improvement"] = float(common._test_criterion_impurity_improvement(crit, obs["impurity"], obs["children"][0], obs["children"][1]))
+        if p0 not in (s0, e0):
+            want["proxy"] = -(Wr * want["right"]) - (Wl * want["left"])
+            got["proxy"] = float(obs["proxy"])
     bad = {k: (got[k], want[k]) for k in want if abs(got[k] - want[k]) > 1e-7 * max(1, abs(want[k]))}
     if bad:
         return True, dict(criterion=CLS[kind], y=y.tolist(), w=None if w is None else w.tolist(), sample_indices=order, triple=[s0, p0, e0], got_vs_expected={k: list(v) for k, v in bad.items()})
